@@ -930,6 +930,8 @@ func checkC07(ck *Check) {
 	ck.sortBeforeLoop("C07.R4", a.UntaintLoop, "A-UNTAINT", -1, "CreationTimestamp(j).Before(CreationTimestamp(i)) (newest first)")
 	// R8 every tainted node the loop reaches is attempted
 	ck.everyCandidateAttempted("C07.R8", a.UntaintLoop, "A-UNTAINT")
+	// R9 what is untainted first is a tainted, uncordoned node of the group (decided as C01.R5)
+	ck.classification("C07.R9", map[int]string{1: "tainted"})
 	// R5 typestate
 	ck.cacheTypestate("C07.R5")
 	// R6
